@@ -288,4 +288,78 @@ theorem choosePtr_spec (inp : PivIn K Rat) (thr : Rat → Rat) (ds : Rat) (pm : 
 
 end chooseK
 
+/-! ### the recorded pivot row -/
+section rowK
+variable {K : Type} [Inhabited K] [Mag K Rat] [Add K] [MagNonneg K]
+
+/-- the scan records the remembered pivot only at a position whose row IS the remembered row and
+is eligible -/
+theorem scanTo_old_row (inp : PivIn K Rat) (m : Nat) :
+    ∀ d, (scanTo inp m).oldPtr = some d → (inp.cands[d]!).row = inp.pivrowIn ∧ (inp.cands[d]!).elig = true := by
+  induction m with
+  | zero => intro d hd; simp [scanTo, scanInit] at hd
+  | succ m ih =>
+    rw [scanTo_succ]
+    generalize scanTo inp m = s at ih
+    unfold scanStep
+    intro d hd
+    by_cases he : (inp.cands[m]!).elig = true
+    · simp only [he, Bool.not_true, Bool.false_eq_true, if_false] at hd
+      split at hd
+      · rename_i h
+        injection hd with hd; subst hd
+        simp only [Bool.and_eq_true, beq_iff_eq] at h
+        exact ⟨h.2, he⟩
+      · exact ih d hd
+    · have he' : (inp.cands[m]!).elig = false := by simpa using he
+      simp only [he', Bool.not_false, if_true] at hd
+      exact ih d hd
+
+omit [MagNonneg K] in
+theorem choosePtr_reuse_row (inp : PivIn K Rat) (thr : Rat → Rat) (ds pm : Rat) (s : Scan Rat)
+    (hold : ∀ d, s.oldPtr = some d → (inp.cands[d]!).row = inp.pivrowIn)
+    (h : (choosePtr inp thr ds s pm).2 = true) :
+    (inp.cands[(choosePtr inp thr ds s pm).1]!).row = inp.pivrowIn := by
+  unfold choosePtr at h ⊢
+  simp only [] at h ⊢
+  split at h
+  · rename_i hc
+    rw [if_pos hc]
+    simp only [Bool.and_eq_true] at hc
+    have hsome := hc.1.1.2
+    cases ho : s.oldPtr with
+    | none => rw [ho] at hsome; simp at hsome
+    | some d => simpa using hold d ho
+  · split at h
+    · split at h <;> simp at h
+    · simp at h
+
+/-- generic form: for every threshold function, replacement embedding and reset increment -/
+theorem iluPivotChoice_row_recorded
+    (inp : PivIn K Rat) (thr : Rat → Rat) (ds : Rat) (ofR : Rat → K) (resetInc : K → K) (p : Nat)
+    (hp : (iluPivotChoice inp thr ds ofR resetInc).pos = some p) (hr : (iluPivotChoice inp thr ds ofR resetInc).ret = 0) :
+    (inp.cands[p]!).row = (iluPivotChoice inp thr ds ofR resetInc).pivrow := by
+  have hold := scanTo_old_row inp inp.cands.length
+  rw [← scan_eq_scanTo] at hold
+  unfold iluPivotChoice at hp hr ⊢
+  simp only [] at hp hr ⊢
+  generalize (if inp.milu.absVariant = true then (scan inp).pivmax + ds else (scan inp).pivmax) = pm at hp hr ⊢
+  by_cases h1 : pm < 0
+  · rw [if_pos h1] at hr; simp at hr
+  · rw [if_neg h1] at hp hr ⊢
+    by_cases h2 : (pm == 0) = true
+    · rw [if_pos h2] at hr
+      split at hr <;> try (simp at hr)
+      split at hr <;> simp at hr
+    · rw [if_neg h2] at hp ⊢
+      simp only [Option.some.injEq] at hp
+      subst hp
+      simp only []
+      split
+      · rename_i hre
+        exact choosePtr_reuse_row inp _ _ _ _ (fun d hd => (hold d hd).1) hre
+      · rfl
+
+end rowK
+
 end Slu.Ilu
